@@ -86,6 +86,9 @@ def twin_stack():
                     okk = depth > 0 and stack[-1] is b and res == [id(x) for x in stack[:-1]]
                 except (AssertionError, IndexError):
                     okk = not (depth > 0 and stack[-1] is b)
+                except Exception as e:  # noqa  any other exception class is outside the contract
+                    okk = False
+                    st.use_stack = [mk(f"<raised {type(e).__name__}>")]
                 if not okk:
                     fails.append({"detail": f"_exit({b.name}) on stack {[x.name for x in stack]} gives {[x.name for x in st.use_stack]}", "replay": {"fn": "vf.kernels.c11_registry:replay_exit", "args": [[x.name for x in stack], b.name]}})
     return n, fails[:3]
